@@ -1,19 +1,24 @@
 """C17 - terminal table navigation is total and keeps the selection in range.
 
 M: MC_Tui (exhaustive BFS of Tui.tla, invariant + action properties) and a spec mutant.
-G: Gen_Tui prints every transition of the reachable graph as a key sequence from start-up.
-Replay: driver command `tui` runs each sequence through the real update().
+G: Gen_Tui prints, for every reachable state, the table (n rows, m tracked aircraft) and the
+   breadth-first event history reaching it, plus the event alphabet.
+Replay: driver command `tui` replays each history through the real update() and then applies
+   every event of the alphabet to the state reached (one recorded call per (state, event)).
 V: Trace_Tui judges every recorded call (property level = verdict; design level = info).
-No oracle here: this file renames fields, de-duplicates identical records and counts.
+No oracle here: this file renames fields, translates key names and counts.
 """
+import concurrent.futures as cf
 import json
 import os
 import re
 from .. import core
 
 LEVEL = "model_checking"
-FIELDS = (("n", "n"), ("sel", "sel"), ("quit", "quit"), ("search", "search"), ("qlen", "qlen"),
-          ("sortKey", "sort_key"), ("sortAsc", "sort_asc"), ("width", "width"))
+FIELDS = (("n", "n"), ("m", "tracked"), ("sel", "sel"), ("quit", "quit"), ("search", "search"),
+          ("q", "qbytes"), ("sortKey", "sort_key"), ("sortAsc", "sort_asc"), ("width", "width"))
+CHARS = {"U+00E9": "é", "U+65E5": "日"}       # spec files stay ASCII
+CHUNK = 4000
 
 
 def project(st):
@@ -21,89 +26,71 @@ def project(st):
     return {a: st[b] for a, b in FIELDS}
 
 
+def driver_key(k, w):
+    return f"Tick:{w}" if k == "Tick" else CHARS.get(k, k)
+
+
 def driver_keys(keys):
-    return [f"Tick:{w}" if k == "Tick" else k for k, w in keys]
+    return [driver_key(k, w) for k, w in keys]
 
 
-def replay_scenarios(scen):
-    """scen: list of {"n":, "keys": [[key, w], ...]}.  Returns one list of events per scenario."""
-    reqs = [{"cmd": "tui", "n": s["n"], "keys": driver_keys(s["keys"])} for s in scen]
-    replies = []
-    pos = 0
+def outcome(ev, st):
+    if "panic" in st:
+        ev["out"] = "panic"
+        ev["panic"] = st["panic"][:120]
+    elif "error" in st:
+        raise core.ToolError(f"driver: {st['error']}")
+    else:
+        ev["out"] = "ok" if st["ok"] else "err"
+        ev["after"] = project(st)
+    return ev
+
+
+def replay_chunk(scen):
+    """scen: [{"n","m","keys":[[key,w],..],"fan":[[key,w],..]}] -> (events, origins, unreached)."""
+    reqs = [{"cmd": "tui", "n": s["n"], "tracked": s["m"], "keys": driver_keys(s["keys"]),
+             "fan": driver_keys(s["fan"])} for s in scen]
+    replies, pos = [], 0
     while pos < len(reqs):
         out, rc = core.run_jet(reqs[pos:])
         replies += out
         pos += len(out)
-        if pos < len(reqs):
-            # the driver died while handling request `pos`: that is data, not a tool error
-            replies.append({"cmd": "tui", "died": True, "rc": rc})
+        if pos < len(reqs):          # the driver process died on request `pos`: data, not a tool error
+            replies.append({"died": True})
             pos += 1
-    per = []
-    for s, rep in zip(scen, replies):
-        evs = []
-        if rep.get("died") or "init" not in rep:
-            if not rep.get("died"):
-                raise core.ToolError(f"driver reply without state: {rep}")
-            # process abort: attribute it to the sequence as a whole (its last key)
-            k, w = s["keys"][-1]
-            evs.append({"n": s["n"], "key": k, "w": w, "first": len(s["keys"]) == 1, "out": "abort",
-                        "before": {"n": s["n"], "sel": 0, "quit": False, "search": False, "qlen": 0,
-                                   "sortKey": "unknown", "sortAsc": False, "width": 0}})
-            per.append(evs)
+    events, origin, unreached = [], [], 0
+    for si, (s, rep) in enumerate(zip(scen, replies)):
+        base = {"n": s["n"], "m": s["m"]}
+        if rep.get("died"):
+            k, w = (s["fan"] or s["keys"])[-1]
+            events.append(dict(base, key=k, w=w, first=False, out="abort",
+                               before=dict(base, sel=0, quit=False, search=False, q=[], sortKey="unknown",
+                                           sortAsc=False, width=0)))
+            origin.append((si, -1))
             continue
-        before = project(rep["init"])
-        for i, ((k, w), st) in enumerate(zip(s["keys"], rep["states"])):
-            ev = {"n": s["n"], "key": k, "w": w, "first": i == 0, "before": before}
-            if "panic" in st:
-                ev["out"] = "panic"
-                ev["panic"] = st["panic"][:120]
-            elif "error" in st:
-                raise core.ToolError(f"driver: {st['error']}")
-            else:
-                ev["out"] = "ok" if st["ok"] else "err"
-                ev["after"] = project(st)
-                before = ev["after"]
-            evs.append(ev)
-        per.append(evs)
-    return per
+        if "before" not in rep:
+            # the history itself did not go through (panic on the way): the failing call was
+            # recorded as a fan call of the shorter history; record what the driver saw
+            unreached += 1
+            before = project(rep["init"])
+            for i, ((k, w), st) in enumerate(zip(s["keys"], rep.get("states", []))):
+                ev = outcome(dict(base, key=k, w=w, first=(i == 0), before=before), st)
+                events.append(ev)
+                origin.append((si, -2 - i))
+                before = ev.get("after", before)
+            continue
+        before = project(rep["before"])
+        for fi, ((k, w), st) in enumerate(zip(s["fan"], rep["fan"])):
+            events.append(outcome(dict(base, key=k, w=w, first=(len(s["keys"]) == 0), before=before), st))
+            origin.append((si, fi))
+    return events, origin, unreached
 
 
-def judge(run, scen, per, workdir, shards):
-    """de-duplicate identical records, let Trace_Tui decide, report rejections."""
-    uniq = {}
-    for si, evs in enumerate(per):
-        for i, ev in enumerate(evs):
-            key = json.dumps(ev, sort_keys=True)
-            if key not in uniq:
-                uniq[key] = (ev, si, i)
-    events = [v[0] for v in uniq.values()]
-    where = [(v[1], v[2]) for v in uniq.values()]
-    core.check_i32(events)
-    rejected, results = core.validate_sharded("trace/Trace_Tui", events, workdir, shards=shards,
-                                              timeout=3000)
-    reasons, mismatch = {}, set()
-    base = 0
-    parts = core.shard(events, shards)
-    for r, part in zip(results, parts):
-        run.add_tlc(r)
-        for m in re.finditer(r'<<"REJECT", (\d+), "([^"]*)">>', r.out):
-            reasons[base + int(m.group(1))] = m.group(2)
-        for m in re.finditer(r'<<"DESIGN-MISMATCH", (\d+)>>', r.out):
-            mismatch.add(base + int(m.group(1)))
-        base += len(part)
-    for i in sorted(rejected):
-        ev = events[i - 1]
-        si, k = where[i - 1]
-        why = reasons.get(i, "unknown")
-        sig = {"why": why, "empty_table": ev["n"] == 0, "key": ev["key"]}
-        run.report(sig, {"n": ev["n"], "keys": scen[si]["keys"][:k + 1],
-                         "driver_keys": driver_keys(scen[si]["keys"][:k + 1]),
-                         "state_before_last_key": ev["before"], "outcome": ev["out"],
-                         "state_after": ev.get("after", ev.get("panic", "none")),
-                         "spec": "Tui.tla PropOk: no panic, selection in range, flags change only on "
-                                 "their documented keys; broken clause: " + why})
-    pure_mismatch = sorted(mismatch - rejected)
-    return events, rejected, pure_mismatch, where
+def validate_files(paths, counts, timeout=3000):
+    def one(p, n):
+        return core.validate("trace/Trace_Tui", p, n_events=n, timeout=timeout, xmx="3g")
+    with cf.ThreadPoolExecutor(max_workers=len(paths)) as ex:
+        return list(ex.map(one, paths, counts))
 
 
 def check(run, scen=None):
@@ -113,72 +100,123 @@ def check(run, scen=None):
     m = None
     if not replaying:
         # M: exhaustive search of the specification; invariant and action properties
-        m = core.tlc_ok("mc/MC_Tui", cfg=f"mc/MC_Tui{suffix}.cfg", xmx="3g", timeout=1200)
+        m = core.tlc_ok("mc/MC_Tui", cfg=f"mc/MC_Tui{suffix}.cfg", xmx="3g", timeout=1200, workers=2)
         run.add_tlc(m)
         # spec mutant (raw n-1 arithmetic): must be refuted, else M has no teeth
         mut = core.tlc("mc/MC_Tui", cfg="mc/MC_Tui_mutant.cfg", xmx="3g", timeout=600)
         if mut.ok or "SelInRange" not in (mut.error or ""):
             raise core.ToolError("spec mutant (unguarded index arithmetic) was not refuted by MC_Tui")
-        # G: every transition of the reachable graph as a key sequence from start-up
+        # G: one shortest history per reachable state + the alphabet
         g = core.tlc_ok("gen/Gen_Tui", cfg=f"gen/Gen_Tui{suffix}.cfg", xmx="3g", timeout=1200)
-        scen = g.printed_json()
-        if not scen or len(scen) + len({s["n"] for s in scen}) != g.generated:
-            raise core.ToolError(f"Gen_Tui printed {len(scen)} transitions, TLC generated {g.generated} states")
-        if m.distinct != g.distinct or m.generated != g.generated:
-            raise core.ToolError("M and G explored different graphs")
-    core.write_ndjson(os.path.join(run.work, "scenarios.ndjson"), scen)
-    per = replay_scenarios(scen)
-    if len(per) != len(scen):
-        raise core.ToolError("driver dropped scenarios")
-    n_calls = sum(len(e) for e in per)
-    events, rejected, pure_mismatch, where = judge(run, scen, per, run.work,
-                                                   shards=(8 if thorough else 4))
-    impl_states = {json.dumps(e["before"], sort_keys=True) for e in events}
-    impl_states |= {json.dumps(e["after"], sort_keys=True) for e in events if "after" in e}
-    impl_trans = {(json.dumps(e["before"], sort_keys=True), e["key"], e["w"]) for e in events}
-    sizes = sorted({s["n"] for s in scen})
+        lines = g.printed_json()
+        alpha = [x for x in lines if "alphabet" in x]
+        hists = [x for x in lines if "keys" in x]
+        if len(alpha) != 1 or len(hists) != g.distinct or m.distinct != g.distinct:
+            raise core.ToolError(f"Gen_Tui printed {len(hists)} histories for {g.distinct} states (M: {m.distinct})")
+        fan = [[k, 0] for k in sorted(alpha[0]["alphabet"])] + [["Tick", w] for w in sorted(alpha[0]["ticks"])]
+        scen = [{"n": h["n"], "m": h["m"], "keys": h["keys"], "fan": fan} for h in hists]
+    # replay + record, streamed into shard files
+    nshards = 1 if replaying else (8 if thorough else 4)
+    paths = [os.path.join(run.work, f"trace.{i}.ndjson") for i in range(nshards)]
+    files = [open(p, "w") for p in paths]
+    counts = [0] * nshards
+    index = [[] for _ in range(nshards)]          # per shard: (scenario index, fan index) of each line
+    before_states, n_calls, unreached = set(), 0, 0
+    samples = []
+    core.build_jet()
+    starts = list(range(0, len(scen), CHUNK))
+    with cf.ThreadPoolExecutor(max_workers=(6 if thorough else 4)) as ex:
+        replayed = ex.map(lambda c0: replay_chunk(scen[c0:c0 + CHUNK]), starts)
+        for c0, (events, origin, unr) in zip(starts, replayed):
+            unreached += unr
+            core.check_i32(events)
+            sh = (c0 // CHUNK) % nshards
+            last = None
+            for ev, (si, fi) in zip(events, origin):
+                files[sh].write(json.dumps(ev, separators=(",", ":")) + "\n")
+                index[sh].append((c0 + si, fi))
+                if ev["before"] is not last:      # one object per expanded state
+                    last = ev["before"]
+                    before_states.add(json.dumps(last, sort_keys=True))
+            counts[sh] += len(events)
+            n_calls += len(events)
+            if len(samples) < 3 and events:
+                samples.append(events[len(events) // 2])
+    for f in files:
+        f.close()
+    used = [i for i in range(nshards) if counts[i]]
+    results = validate_files([paths[i] for i in used], [counts[i] for i in used])
+    n_rej, pure_mismatch, first_mismatch = 0, 0, []
+    for i, (rejected, r) in zip(used, results):
+        run.add_tlc(r)
+        reasons = {int(a): b for a, b in re.findall(r'<<"REJECT", (\d+), "([^"]*)">>', r.out)}
+        mism = {int(a) for a in re.findall(r'<<"DESIGN-MISMATCH", (\d+)>>', r.out)}
+        need = rejected | set(sorted(mism - rejected)[:3])
+        got = {}
+        if need:
+            with open(paths[i]) as f:
+                for ln, line in enumerate(f, 1):
+                    if ln in need:
+                        got[ln] = json.loads(line)
+        n_rej += len(rejected)
+        pure_mismatch += len(mism - rejected)
+        first_mismatch += [got[j] for j in sorted(mism - rejected)[:3]]
+        for j in sorted(rejected):
+            ev = got[j]
+            si, fi = index[i][j - 1]
+            s = scen[si]
+            keys = s["keys"] + [s["fan"][fi]] if fi >= 0 else s["keys"][:(-fi - 1) if fi < -1 else None]
+            why = reasons.get(j, "unknown")
+            sig = {"why": why, "empty_table": ev["n"] == 0, "key": ev["key"]}
+            if ev["m"] != ev["n"]:
+                sig["tracked_differs"] = True
+            run.report(sig, {"n": ev["n"], "m": ev["m"], "keys": keys, "driver_keys": driver_keys(keys),
+                             "state_before_last_key": ev["before"], "outcome": ev["out"],
+                             "state_after": ev.get("after", ev.get("panic", "none")),
+                             "spec": "Tui.tla PropOk: no panic, selection in range, flags change only on "
+                                     "their documented keys; broken clause: " + why})
     longest = max(scen, key=lambda s: len(s["keys"]))
     run.cov.update({
         "traces_validated_against_impl": len(scen),
-        "update_calls_replayed": n_calls,
-        "distinct_calls_judged": len(events),
-        "impl_states_seen": len(impl_states),
-        "impl_transitions_seen": len(impl_trans),
-        "table_sizes": sizes,
-        "rejected_calls": len(rejected),
-        "design_conformance": {"mismatches_on_accepted_calls": len(pure_mismatch),
-                               "calls": len(events),
-                               "first": [events[i - 1] for i in pure_mismatch[:3]],
+        "update_calls_judged": n_calls,
+        "impl_states_expanded": len(before_states),
+        "histories_not_replayable": unreached,
+        "tables": sorted({(s["n"], s["m"]) for s in scen}),
+        "rejected_calls": n_rej,
+        "design_conformance": {"mismatches_on_accepted_calls": pure_mismatch, "calls": n_calls,
+                               "first": first_mismatch[:3],
                                "note": "recorded successor compared with Tui!Step; informative only"},
-        "exhaustive": (not replaying) and len(pure_mismatch) == 0,
-        "samples": [{"n": scen[0]["n"], "keys": driver_keys(scen[0]["keys"])},
-                    {"n": longest["n"], "keys": driver_keys(longest["keys"])},
-                    events[len(events) // 2]],
-        "rule": "TLC enumerates every transition (state, key) of Tui.tla's reachable graph for each table "
-                "size and prints the breadth-first key sequence reaching it; each sequence is run through "
-                "the real update(); identical recorded calls are judged once",
+        "exhaustive": (not replaying) and pure_mismatch == 0 and unreached == 0,
+        "samples": [{"n": longest["n"], "m": longest["m"], "history": driver_keys(longest["keys"]),
+                     "then_each_of": driver_keys(longest["fan"])}] + samples,
+        "rule": "TLC enumerates every reachable state of Tui.tla for each table (n displayed rows, m tracked "
+                "aircraft) with its breadth-first event history; the history is run through the real update() "
+                "and every event of the alphabet is then applied to the state reached: one judged call per "
+                "(state, event)",
     })
     if m is not None:
-        run.cov["states"] = m.distinct          # reachable states of Tui.tla (all table sizes)
+        run.cov["states"] = m.distinct          # reachable states of Tui.tla (all tables)
         run.cov["transitions"] = m.generated    # transitions generated by the exhaustive search
         run.cov["spec_depth"] = m.depth
-        if len(pure_mismatch) == 0 and len(rejected) == 0 and len(impl_states) != m.distinct:
-            raise core.ToolError(f"conformant replay but {len(impl_states)} implementation states for "
+        if pure_mismatch == 0 and n_rej == 0 and len(before_states) != m.distinct:
+            raise core.ToolError(f"conformant replay but {len(before_states)} implementation states for "
                                  f"{m.distinct} specification states")
     run.assumptions += [
-        "the table size is fixed while keys are handled (the property's quantifier); rows that expire "
-        "between two keys are outside update() and outside C17",
-        "search queries are explored up to the length bound of the configuration (query text is opaque)",
-        "'x' stands for every character without a function; one (thorough: two) Tick width(s)",
-        "the driver projects Jet1090 to (items.len, selected, should_quit, is_search_mode, query length, "
-        "sort_key, sort_asc, width); scroll_state is not observed",
+        "the table is fixed while keys are handled (the property's quantifier); rows that expire between two "
+        "keys are outside update() and outside C17",
+        "search queries are explored up to the length bound of the configuration; a query is abstracted to the "
+        "UTF-8 length of its characters (1: 'x' and the function keys, 2: U+00E9, 3: U+65E5)",
+        "tracked aircraft are empty state vectors; m - n in {0,1,2} (thorough: also m = 0)",
+        "the driver projects Jet1090 to (items.len, state_vectors.len, selected, should_quit, is_search_mode, "
+        "query, sort_key, sort_asc, width); scroll_state is not observed",
     ]
 
 
 def replay(run, path):
     with open(path) as f:
         doc = json.load(f)
-    scen = [{"n": c["n"], "keys": c["keys"]} for c in doc.get("cases", [])]
+    scen = [{"n": c["n"], "m": c.get("m", 0), "keys": c["keys"][:-1], "fan": c["keys"][-1:]}
+            for c in doc.get("cases", []) if c.get("keys")]
     if not scen:
         raise core.ToolError("replay file without cases")
     check(run, scen)
